@@ -40,7 +40,24 @@ fn pair3(d: &mut Draw) -> ([f64; 3], [f64; 3], &'static str) {
             (a, b, "near-antiparallel")
         }
         8 => (a, a, "equal"),
-        _ => (a, [-a[0], -a[1], -a[2]], "opposite"),
+        _ => {
+            // now and then a is a hair off a coordinate axis: the perpendicular axis the constructor has to find is then
+            // the cross product with a vector that is almost parallel to a (components down to the subnormal range)
+            let a = if d.chance(1, 3) {
+                let k = d.below(3);
+                let mut v = [0.0f64; 3];
+                v[k] = if d.bool() { 1.0 } else { -1.0 };
+                for i in 0..3 {
+                    if i != k && d.chance(2, 3) {
+                        v[i] = d.f64_slog(1e-300, 1e-6);
+                    }
+                }
+                fnormalize3(&v)
+            } else {
+                a
+            };
+            (a, [-a[0], -a[1], -a[2]], "opposite")
+        }
     }
 }
 
